@@ -16,6 +16,7 @@ import (
 	_ "verif/mc/checks/c13"
 	_ "verif/mc/checks/c16"
 	_ "verif/mc/checks/c17"
+	_ "verif/mc/checks/c18"
 	_ "verif/mc/checks/c19"
 	_ "verif/mc/checks/c20"
 	"verif/mc/engine"
